@@ -520,12 +520,17 @@ pub fn memops(out: &mut Out, seed: u64, thorough: bool, scn: Option<&str>) {
     let total = scripts.len() + nrand;
     for si in 0..total {
         let (slots, script): (usize, Option<&Vec<String>>) =
-            if si < scripts.len() { (scripts[si].0, Some(&scripts[si].1)) } else { (1 + si % 4, None) };
+            if si < scripts.len() {
+                (scripts[si].0, Some(&scripts[si].1))
+            } else {
+                // mostly 1..4 slots; one run in eight with a slot count around the size of the fragment-id space
+                (match si % 32 { 7 => 254, 15 => 255, 23 => 256, 31 => 300, k => 1 + k % 4 }, None)
+            };
         let pdu_size = 16;
         // measured capacity: provisions accepted by a fresh scratch memory
         let mut scratch = SimpleGseMemory::new(slots, pdu_size, 0, 0);
         let mut cap = 0;
-        while cap < 40 && scratch.provision_storage(vec![0u8; pdu_size + 30].into_boxed_slice()).is_ok() {
+        while cap < 400 && scratch.provision_storage(vec![0u8; pdu_size + 30].into_boxed_slice()).is_ok() {
             cap += 1;
         }
         out.begin(
